@@ -114,6 +114,7 @@ Lemma leaf_items_ileaf env reps P Pv l cur kids :
   ileaf P Pv l = true ->
   exists nv av, nv_ok P nv = true /\ av_ok Pv av = true /\ some_payload nv av = true /\
     leaf_name l = match nv with Some v => v | None => [] end /\
+    attrs_view (lf_attrs l) = Some av /\
     leaf_items env reps (lf_name l) (lf_attrs l) (lf_value l) (lf_self l) cur kids =
       [ANode nv None cur (av_attrs av) kids false].
 Proof.
@@ -259,7 +260,7 @@ Section Unroll.
     destruct node as [a b c r s els|els r]; cbn [inamed elements_of' once_u ishape_once] in *.
     - apply andb_prop in Hn. destruct Hn as [Hl Hels].
       destruct (leaf_items_ileaf env reps P Pv (mkLeaf a b c r s) cur (flat_map (unroll env reps) els) Hl)
-        as [nv [av [H1 [H2 [H3 [Hnm E]]]]]].
+        as [nv [av [H1 [H2 [H3 [Hnm [_ E]]]]]]].
       cbn [lf_name lf_attrs lf_value lf_self] in E. rewrite E.
       assert (Ex : name_or (leaf_name (mkLeaf a b c r s)) (implicit_name_of cfg pn) = rname cfg pn nv).
       { rewrite Hnm. destruct nv as [v|]; [|reflexivity]. cbn [nv_ok] in H1. pose proof (HPne v H1) as Hne.
@@ -649,6 +650,55 @@ Definition value_sem (w : str) : bool := match w with [] => false | _ => true en
    literal value: expand succeeds and the tag chunks nest to the unrolled preorder list in which
    every nameless element carries the implicit name for its parent's final name.
    The BEM addon (options['bem.enabled']) is off: it rewrites class values. *)
+(* the pipeline up to the formatter's input: the unrolled forest with final names *)
+Theorem expand_forest_I (P Pv : str -> bool) x s toks root :
+  (forall n, P n = true -> name_sem x n = true) ->
+  cfg_ok x = true -> mc_bem (xc_m x) = false ->
+  tokenize s = TOk toks -> parse (mc_jsx (xc_m x)) toks = POk root ->
+  forallb (inamed P Pv) root = true ->
+  (total_list root <= budget_of (mc_max_repeat (xc_m x)))%Z ->
+  let m := xc_m x in
+  let forest := flat_map (unroll (mkCenv (mc_text m) (mc_variables m) (mc_href m)) []) root in
+  expand_markup x s = Ok (html_format (xc_o x) (map (rnode m None) forest)) /\
+  forallb (inode P Pv) forest = true /\
+  pnamesL 0 (map (rnode m None) forest) = flat_map (ishape m None 0) root.
+Proof.
+  intros HP Hc Hbem Ht Hp Hn Hb. unfold cfg_ok in Hc.
+  apply andb_prop in Hc. destruct Hc as [Hc Hclean]. apply andb_prop in Hc. destruct Hc as [Hsyn Htext].
+  cbv zeta. set (m := xc_m x) in *.
+  assert (Htx : mc_text m = WNone) by (destruct (mc_text m); [reflexivity|discriminate|discriminate]).
+  assert (Hsem : forall n, P n = true ->
+            n <> [] /\ nolt n = true /\ nocrlf n = true /\ name_start n = true /\ no_snippet m n = true /\ not_lorem n = true).
+  { intros n H. specialize (HP n H). unfold name_sem in HP. fold m in HP.
+    repeat (apply andb_prop in HP; let H' := fresh in destruct HP as [HP H']).
+    repeat split; try assumption. destruct n; discriminate. }
+  assert (HP0 : forall n, P n = true -> n <> []) by (intros n H; apply (Hsem n H)).
+  assert (HP1 : forall n, P n = true -> no_snippet m n = true) by (intros n H; apply (Hsem n H)).
+  assert (HP2 : forall n, P n = true -> n <> [] /\ not_lorem n = true) by (intros n H; split; apply (Hsem n H)).
+  set (env := mkCenv (mc_text m) (mc_variables m) (mc_href m)).
+  set (forest := flat_map (unroll env []) root).
+  assert (Hcv : convert env (mc_max_repeat m) root = Ok forest).
+  { apply convert_enough; [exact Htx| |exact Hb]. apply forallb_forall. intros k Hk.
+    rewrite forallb_forall in Hn. apply (inamed_clean P Pv), Hn, Hk. }
+  assert (Hin : forallb (inode P Pv) forest = true).
+  { unfold forest. rewrite forallb_flat_map. apply forallb_forall. intros k Hk. rewrite forallb_forall in Hn.
+    apply (unroll_inamed env m P Pv HP0 k (Hn k Hk) [] None 0). }
+  split; [|split; [exact Hin|]].
+  - unfold expand_markup, markup_parse. fold m. unfold parse_abbr. rewrite Ht. fold m in Hp. rewrite Hp. fold env. rewrite Hcv. cbn [bind].
+    rewrite walk_resolve_eq. rewrite (walk_list_inode m [] _ P Pv HP1 forest Hin). cbn [bind].
+    rewrite (transform_list_inode m P Pv HP2 Hbem forest Hin). cbn [bind].
+    rewrite (stringify_html _ _ _ Hsyn). reflexivity.
+  - unfold forest, pnamesL. rewrite map_flat_map, flat_map_flat_map. apply flat_map_ext_Forall. apply Forall_forall.
+    intros k Hk. rewrite forallb_forall in Hn. apply (unroll_inamed env m P Pv HP0 k (Hn k Hk) [] None 0).
+Qed.
+
+Lemma name_sem_clean x n : name_sem x n = true -> n <> [] /\ nolt n = true /\ nocrlf n = true /\ name_start n = true.
+Proof.
+  unfold name_sem. intros HP.
+  repeat (apply andb_prop in HP; let H' := fresh in destruct HP as [HP H']).
+  repeat split; try assumption. destruct n; discriminate.
+Qed.
+
 Theorem expand_tree_I (P Pv : str -> bool) x s toks root :
   (forall n, P n = true -> name_sem x n = true) ->
   (forall w, Pv w = true -> value_sem w = true) ->
@@ -662,40 +712,17 @@ Theorem expand_tree_I (P Pv : str -> bool) x s toks root :
       map (fun p => (fst p, tag_name (xc_o x) (snd p)))
           (resolve_names (imp_model (xc_m x)) [] (flat_map (xshape [] 0) root)).
 Proof.
-  intros HP HPv Hc Hbem Ht Hp Hn Hb. unfold cfg_ok in Hc.
-  apply andb_prop in Hc. destruct Hc as [Hc Hclean]. apply andb_prop in Hc. destruct Hc as [Hsyn Htext].
+  intros HP HPv Hc Hbem Ht Hp Hn Hb.
+  destruct (expand_forest_I P Pv x s toks root HP Hc Hbem Ht Hp Hn Hb) as [He [Hin Hshape]].
+  unfold cfg_ok in Hc. apply andb_prop in Hc. destruct Hc as [_ Hclean].
   set (m := xc_m x) in *.
-  assert (Htx : mc_text m = WNone) by (destruct (mc_text m); [reflexivity|discriminate|discriminate]).
-  assert (Hsem : forall n, P n = true ->
-            n <> [] /\ nolt n = true /\ nocrlf n = true /\ name_start n = true /\ no_snippet m n = true /\ not_lorem n = true).
-  { intros n H. specialize (HP n H). unfold name_sem in HP. fold m in HP.
-    repeat (apply andb_prop in HP; let H' := fresh in destruct HP as [HP H']).
-    repeat split; try assumption. destruct n; discriminate. }
-  assert (HP0 : forall n, P n = true -> n <> []) by (intros n H; apply (Hsem n H)).
-  assert (HP1 : forall n, P n = true -> no_snippet m n = true) by (intros n H; apply (Hsem n H)).
-  assert (HP2 : forall n, P n = true -> n <> [] /\ not_lorem n = true) by (intros n H; split; apply (Hsem n H)).
-  assert (HP3 : forall n, P n = true -> n <> [] /\ nolt n = true /\ nocrlf n = true /\ name_start n = true).
-  { intros n H. destruct (Hsem n H) as [A [B [C [D _]]]]. auto. }
+  assert (HP3 : forall n, P n = true -> n <> [] /\ nolt n = true /\ nocrlf n = true /\ name_start n = true)
+    by (intros n H; apply (name_sem_clean x), HP, H).
   assert (HPv1 : forall w, Pv w = true -> nolt w = true).
   { intros w H. specialize (HPv w H). unfold value_sem in HPv. apply andb_prop in HPv. apply HPv. }
-  set (env := mkCenv (mc_text m) (mc_variables m) (mc_href m)).
-  set (forest := flat_map (unroll env []) root).
-  assert (Hcv : convert env (mc_max_repeat m) root = Ok forest).
-  { apply convert_enough; [exact Htx| |exact Hb]. apply forallb_forall. intros k Hk.
-    rewrite forallb_forall in Hn. apply (inamed_clean P Pv), Hn, Hk. }
-  assert (Hin : forallb (inode P Pv) forest = true).
-  { unfold forest. rewrite forallb_flat_map. apply forallb_forall. intros k Hk. rewrite forallb_forall in Hn.
-    apply (unroll_inamed env m P Pv HP0 k (Hn k Hk) [] None 0). }
-  assert (Hshape : pnamesL 0 (map (rnode m None) forest) = flat_map (ishape m None 0) root).
-  { unfold forest, pnamesL. rewrite map_flat_map, flat_map_flat_map. apply flat_map_ext_Forall. apply Forall_forall.
-    intros k Hk. rewrite forallb_forall in Hn. apply (unroll_inamed env m P Pv HP0 k (Hn k Hk) [] None 0). }
-  exists (html_format (xc_o x) (map (rnode m None) forest)). split.
-  - unfold expand_markup, markup_parse. fold m. unfold parse_abbr. rewrite Ht. fold m in Hp. rewrite Hp. fold env. rewrite Hcv. cbn [bind].
-    rewrite walk_resolve_eq. rewrite (walk_list_inode m [] _ P Pv HP1 forest Hin). cbn [bind].
-    rewrite (transform_list_inode m P Pv HP2 Hbem forest Hin). cbn [bind].
-    rewrite (stringify_html _ _ _ Hsyn). reflexivity.
-  - rewrite (format_nest_gen (xc_o x) _ Hclean).
-    + rewrite Hshape, (resolve_forest m root). reflexivity.
-    + intros n Hn'. apply in_map_iff in Hn'. destruct Hn' as [n0 [<- Hn0]].
-      rewrite forallb_forall in Hin. apply (rnode_facts (xc_o x) m P Pv HP3 HPv1 n0 (Hin n0 Hn0) None).
+  eexists. split; [exact He|].
+  rewrite (format_nest_gen (xc_o x) _ Hclean).
+  - rewrite Hshape, (resolve_forest m root). reflexivity.
+  - intros n Hn'. apply in_map_iff in Hn'. destruct Hn' as [n0 [<- Hn0]].
+    rewrite forallb_forall in Hin. apply (rnode_facts (xc_o x) m P Pv HP3 HPv1 n0 (Hin n0 Hn0) None).
 Qed.
